@@ -133,6 +133,12 @@ def judge(ctx, case):
             routes['kw-bytearray-changed-afterwards'] = lambda: _then_scribble(bytearray(pv), lambda b: cls(bytes=b))
             routes['auto-memoryview-changed-afterwards'] = lambda: _then_scribble(bytearray(pv), lambda b: cls(memoryview(b)))
             routes['prop+len'] = lambda: _assign(mcls(), f'bytes{n}', pv)
+            # the length of 'bytes' counts bytes in a keyword or Dtype name and bits in the length argument
+            routes['kw-len-in-name'] = lambda: cls(**{f'bytes{n}': pv})
+            routes['kw+length'] = lambda: cls(bytes=pv, length=8 * n)
+            routes['prop'] = lambda: _assign(mcls(8 * n), 'bytes', pv)
+            routes['Array'] = lambda: Array(f'bytes{n}', [pv]).data
+            routes['Array-Dtype'] = lambda: Array(Dtype('bytes', n), [pv, pv]).data[8 * n:]
             routes['Dtype(name,n).build'] = lambda: Dtype('bytes', n).build(pv)
             routes["Dtype('namen').build"] = lambda: Dtype(f'bytes{n}').build(pv)
             routes['pack-pos'] = lambda: pack(f'bytes:{n}', pv)
@@ -216,8 +222,7 @@ def judge(ctx, case):
             reads['prop+len'] = lambda: getattr(s, f'{name}{n}')
             reads['unpack-stretchy'] = lambda: s.unpack(name)[0]
             reads['read-stretchy'] = lambda: ConstBitStream(s).read(name)
-        if fam not in ('bytes',):
-            reads['Array-item'] = lambda: Array(f'{name}{n}' if fam != 'bool' else 'bool', s)[0]
+        reads['Array-item'] = lambda: Array(f'{name}{n}' if fam != 'bool' else 'bool', s)[0]
         if fam == 'bits':
             reads.pop('prop', None)
             reads['prop'] = lambda: s.bits
